@@ -155,6 +155,8 @@ impl PanicInfo {
         let msg: String = self.message.lines().next().unwrap_or("").chars().take(60).collect();
         // strip digits so that values in messages do not unkey a finding
         let msg: String = msg.chars().map(|c| if c.is_ascii_digit() { '#' } else { c }).collect();
+        // ... and quoted names
+        let msg = { let mut out = String::new(); let mut inq = false; for c in msg.chars() { if c == '\'' { inq = !inq; out.push(c); if inq { out.push('_'); } } else if !inq { out.push(c); } } out };
         format!("panic:{}:{}:L{}", self.file, msg, self.line)
     }
     pub fn to_failure(&self, prefix: &str) -> Failure {
